@@ -29,10 +29,10 @@ CHECKS.update({
    note=TB + 'strtol/strtoul/strtod are trusted stubs returning the clamp of a ghost reading (ISO C 7.22.1); exp2 of integral arguments exact. Value lists: ValueListDataField::writeSymbols is under contract in unit valuelist (a text is encoded iff it is a name of the list or a number text denoting a listed value without truncation; else rejected, nothing written). floatToUint16 (KNX): every float in (-700000, 700000) is encoded within one resolution step or as the invalid value if beyond the range, without undefined behaviour. Not decided: DataField::create range parsing (min/max of derived fields); hex/blank/exponent syntax of the C library.',
    ref='DESIGN.md 5 (C07)'),
  'C12': dict(
-   technique='CBMC contracts: frame (assigns) clauses of the codec functions and errno-independence postcondition of parseInput',
+   technique='CBMC contracts: frame (assigns) clauses of the codec functions and errno-independence postcondition of parseInput; stream-state independence of the number / date / time / string / value list decoders with the ostream as a token model whose initial state is nondeterministic',
    level='proof',
-   text='parseInput proved to return the same verdict whatever errno held on entry (completeness postcondition quantifies over errno) and to consult the C library at most once; codec functions under contract write only their out-parameters (assigns clauses checked by DFCC or whole-object frame assertions).',
-   note=TB + 'Not decided: stream-flag determinacy of readSymbols implementations, derived-type cache transparency, load-order independence of MessageMap (whole-loader property).',
+   text='parseInput proved to return the same verdict whatever errno held on entry (completeness postcondition quantifies over errno) and to consult the C library at most once; codec functions under contract write only their out-parameters (assigns clauses checked by DFCC or whole-object frame assertions). Stream state: NumberDataType::readFromRawValue, DateTimeDataType::readSymbols, StringDataType::readSymbols and ValueListDataField::readSymbols are proved to print every number in the base, width, fill, fixed flag and precision the type asks for, for an arbitrary state (base, width, fill, fixed flag, precision) left on the stream by earlier output, and to leave no field width behind.',
+   note=TB + 'Stream model: rule R11 token stream (the characters libstdc++ prints for a token in a given state are trusted). Not decided: derived-type cache transparency, load-order independence of MessageMap (whole-loader property).',
    ref='DESIGN.md 5 (C12)'),
 })
 
